@@ -1179,6 +1179,24 @@ C13_CONSUMER = """<scxml xmlns="http://www.w3.org/2005/07/scxml" version="1.0" d
    <send target="#_internal" event="follow"><param name="n" expr="_event.name"/></send></transition>
 </state></scxml>"""
 
+# consumer that also invokes a child (same invoke id on every entry of state 'on'); the child sends m events to its parent
+C13_CHILD = """<scxml xmlns="http://www.w3.org/2005/07/scxml" version="1.0" datamodel="rfsm-expression" name="kid">
+<datamodel><data id="gen" expr="0"/></datamodel><state id="c"><onentry>%s</onentry></state></scxml>"""
+C13_CONSUMER_INV = """<scxml xmlns="http://www.w3.org/2005/07/scxml" version="1.0" datamodel="rfsm-expression" name="consumer">
+<datamodel><data id="cnt" expr="0"/><data id="g" expr="0"/></datamodel>
+<state id="s">
+ <transition event="follow"><script>mark('E', _event.data.n)</script></transition>
+ <transition event="kick"><script>mark('B', _event.name)</script>
+   <send target="#_internal" event="follow"><param name="n" expr="_event.name"/></send></transition>
+ <transition event="*"><script>mark('B', _event.name)</script><assign location="cnt" expr="cnt + 1"/>
+   <send target="#_internal" event="follow"><param name="n" expr="_event.name"/></send></transition>
+ <state id="off"><transition event="w.on" target="on"><script>mark('B', _event.name)</script><assign location="g" expr="g + 1"/>
+   <send target="#_internal" event="follow"><param name="n" expr="_event.name"/></send></transition></state>
+ <state id="on"><invoke type="scxml" id="w"><param name="gen" expr="g"/><content>%s</content></invoke>
+   <transition event="w.off" target="off"><script>mark('B', _event.name)</script>
+   <send target="#_internal" event="follow"><param name="n" expr="_event.name"/></send></transition></state>
+</state></scxml>"""
+
 C13_PEER = """<scxml xmlns="http://www.w3.org/2005/07/scxml" version="1.0" datamodel="rfsm-expression" name="peer">
 <datamodel><data id="peer" expr="0"/></datamodel>
 <state id="w"><transition event="go">%s</transition></state></scxml>"""
@@ -1233,8 +1251,26 @@ def c13(tier, seed):
         job = {"id": si + 1, "sessions": sessions, "steps": steps, "timeout_ms": 60000, "peer": peer_n}
         jobs.append(job)
         meta[si + 1] = (prods, groups, kick, peer_n)
+    # an invoked child as producer: the invoking state is left (child cancelled) and entered again, the second child has the
+    # same invoke id; every event of the second child must be consumed (those of the cancelled first one may be dropped)
+    from xml.sax.saxutils import escape as _esc
+    for ci in range(2 if tier == "quick" else 12):
+        mk = rng.choice([5, 20, 60])
+        child = C13_CHILD % "".join('<send target="#_parent" eventexpr="\'k\' + gen + \'.%d\'"/>' % (q + 1) for q in range(mk))
+        jid = len(jobs) + 1
+        host = ["h.%d" % (q + 1) for q in range(10)]
+        ctl = ["w.on", "w.off", "w.on"]
+        steps = [{"start": "A"}, {"settle": 20}, {"send": "A", "event": "w.on"}, {"sleep_us": rng.choice([0, 200, 2000])},
+                 {"send": "A", "event": "w.off"}, {"send": "A", "event": "w.on"}] + \
+                [{"send": "A", "event": h} for h in host] + \
+                [{"await_xr": "A", "name": "k2.%d" % mk, "max_ms": 4000}, {"send": "A", "event": "kick"}, {"settle": 60}]
+        jobs.append({"id": jid, "sessions": [{"name": "A", "xml": C13_CONSUMER_INV % _esc(child)}], "steps": steps, "timeout_ms": 60000, "peer": 0,
+                     "prebuilt": True})
+        meta[jid] = ({"host": ctl + host + ["kick"], "child2": ["k2.%d" % (q + 1) for q in range(mk)]}, [], [], 0)
     # the session id of A is only known at run time: B learns it from an event parameter
     for j in jobs:
+        if j.pop("prebuilt", False):
+            continue
         prods, groups, kick, peer_n = meta[j["id"]]
         st = j["steps"]
         if peer_n:
@@ -1256,9 +1292,10 @@ def c13(tier, seed):
         recs = [x[:-1] for x in r["sessions"][a_idx]["recs"]]
         seq = []
         for x in recs:
-            if x[0] == "XR" and x[1]["name"] != "error.platform.cancel":
+            # (events of the first, cancelled child 'k1.*' may or may not arrive: not part of any producer's obligation)
+            if x[0] == "XR" and x[1]["name"] != "error.platform.cancel" and not x[1]["name"].startswith("k1."):
                 seq.append(["X", x[1]["name"]])
-            elif x[0] == "M" and x[1] in ("B", "E"):
+            elif x[0] == "M" and x[1] in ("B", "E") and not (x[2] and tracelib.val_str(x[2][0]).startswith("k1.")):
                 seq.append([x[1], tracelib.val_str(x[2][0]) if x[2] else ""])
         runs.append({"prods": prods, "seq": seq, "jid": j["id"], "panic": bool(r.get("panics")), "stall": bool(r.get("stalls"))})
     with open(os.path.join(wd, "traces.ndjson"), "w") as f:
@@ -1649,6 +1686,10 @@ def c14(tier, seed):
             continue
         pidx = [n for n in r["names"] if n[0] == "P"][0][1]
         logs = {sl["idx"]: [x[:-1] for x in sl["recs"]] for sl in r["sessions"]}
+        r_sessions_raw = {sl["idx"]: sl["recs"] for sl in r["sessions"]}
+        # the time at which the host sent each of its events (k-th host event of the log <-> k-th send)
+        host_times = [sd[4] for sd in r.get("sends", []) if sd[2] == "P"]
+        host_k = [0]
 
         def child_info(idx):
             recs = logs.get(idx, [])
@@ -1668,7 +1709,8 @@ def c14(tier, seed):
                         recv.append(x[1]["name"])
                 elif x[0] == "END":
                     ended = True
-            return {"name": nm, "recv": recv, "final": ended and not cancelled, "cancelled": cancelled, "a": a,
+            tend = max([x2[-1] for x2 in r_sessions_raw.get(idx, []) if x2[0] == "END"] or [0])
+            return {"name": nm, "recv": recv, "final": ended and not cancelled, "cancelled": cancelled, "a": a, "tend": tend,
                     "wanta": "1/7" if nm == "C1" else a, "hasb": hasb}
         prec = []
         kids = []
@@ -1689,7 +1731,11 @@ def c14(tier, seed):
             elif k == "XR" and x[1]["name"] != "error.platform.cancel":
                 # generated invoke ids (stateid.platformid) are replaced by a stable name
                 gen = lambda t: re.sub(r"\b(s[A-Z])\.\d+$", r"gen:\1", t)
-                prec.append({"k": "xr", "a": gen(x[1]["name"]), "b": gen(x[1]["invokeid"] or "")})
+                ts_ = 0
+                if not x[1]["invokeid"] and not x[1]["name"].startswith("done.invoke") and host_k[0] < len(host_times):
+                    ts_ = host_times[host_k[0]]
+                    host_k[0] += 1
+                prec.append({"k": "xr", "a": gen(x[1]["name"]), "b": gen(x[1]["invokeid"] or ""), "ts": ts_})
             elif k == "M" and x[1] == "fin":
                 prec.append({"k": "fin", "a": tracelib.val_str(x[2][0]) if x[2] else "", "b": ""})
             elif k == "SV":
@@ -2774,10 +2820,11 @@ def c10(tier, seed):
             pass
         store_judged += 1
         # (the datamodel refuses to return collections; for those only the parser path is compared)
-        if fits and not extra and (r["a"] == r["b1"] or r["a"][:1] in "[{"):
+        cache_ok = r.get("b3") == r["b1"] and r.get("store_b3") == r["store"]
+        if fits and not extra and (r["a"] == r["b1"] or r["a"][:1] in "[{") and cache_ok:
             store_ok += 1
             continue
-        what = "extra-variable" if extra else "path:b1" if fits else "store"
+        what = "extra-variable" if extra else "store" if not fits else "path:b1" if r["a"] != r["b1"] and r["a"][:1] not in "[{" else "cache"
         first = text.split(" ; ")[0]
         kind = "init" if "?=" in first else "assign" if " = " in first else "read"
         V.report("store:%s:%s" % (what, kind), "program %r: engine gave %s with store %s; allowed: %s" % (text, r["a"], dict(zip(VARS, dump)), outcomes[:3]),
